@@ -24,6 +24,8 @@ pub enum Val {
     Pid { node: String, id: u32, serial: u32, creation: u32 },
     Port { node: String, id: u64, creation: u32 },
     Ref { node: String, creation: u32, ids: Vec<u32> },
+    /// node-local form (LOCAL_EXT): opaque 8-byte hash + the identifier it wraps
+    Local(Vec<u8>, Box<Val>),
 }
 
 impl Val {
@@ -79,6 +81,11 @@ impl Val {
         match self {
             Val::Atom(s) => push(s),
             Val::Pid { node, .. } | Val::Port { node, .. } | Val::Ref { node, .. } => push(node),
+            Val::Local(_, inner) => {
+                // the wrapped identifier's node name is part of the opaque bytes on the wire, but
+                // writers may still list it in a distribution header
+                inner.atoms(out)
+            }
             Val::Tuple(v) => v.iter().for_each(|x| x.atoms(out)),
             Val::List(v, t) => {
                 v.iter().for_each(|x| x.atoms(out));
@@ -188,6 +195,12 @@ pub fn enc_term(out: &mut Vec<u8>, v: &Val, pos: Option<&AtomPositions>) {
             enc_atom(out, node, pos);
             out.extend_from_slice(&id.to_be_bytes());
             out.extend_from_slice(&creation.to_be_bytes());
+        }
+        Val::Local(hash, inner) => {
+            out.push(121);
+            out.extend_from_slice(hash);
+            // inside the node-local form atoms are always written inline
+            enc_term(out, inner, None);
         }
         Val::Ref { node, creation, ids } => {
             out.push(90);
@@ -388,6 +401,11 @@ pub fn dec_term(c: &mut Cur<'_>, hdr_atoms: &[String], depth: u32) -> Result<Val
                 ids.push(c.u32()?);
             }
             Val::Ref { node, creation, ids }
+        }
+        121 => {
+            let hash = c.take(8)?.to_vec();
+            let inner = dec_term(c, hdr_atoms, depth + 1)?;
+            Val::Local(hash, Box::new(inner))
         }
         other => return Err(format!("tag {} not expected from this library", other)),
     })
@@ -806,8 +824,14 @@ pub fn gen_val(r: &mut Rng, size: u32) -> Val {
                 let n = r.below(40) as usize;
                 Val::Bin(r.bytes(n))
             }
-            6 => gen_pid(r, None),
-            7 => gen_ref(r, None),
+            6 => {
+                let p = gen_pid(r, None);
+                if r.chance(1, 4) { Val::Local(r.bytes(8), Box::new(p)) } else { p }
+            }
+            7 => {
+                let x = gen_ref(r, None);
+                if r.chance(1, 4) { Val::Local(r.bytes(8), Box::new(x)) } else { x }
+            }
             _ => {
                 let n = r.range(1, 6) as usize;
                 let mut b = r.bytes(n);
